@@ -95,6 +95,51 @@ def _fd_message(rng, order=None):
     return data, n
 
 
+_DICT_SHAPES = [
+    (b"a{ss}", lambda: [[(b"k", b"v")]]),
+    (b"a{sv}", lambda: [[(b"k", Variant(b"u", 5))]]),
+    (b"ia{us}", lambda: [3, []]),
+    (b"(a{ss})", lambda: [([(b"a", b"b"), (b"c", b"d")],)]),
+    (b"a{s(ii)}", lambda: [[(b"k", (1, 2))]]),
+    (b"aa{yy}s", lambda: [[[(1, 2)], []], b"x"]),
+    (b"v", lambda: [Variant(b"a{ss}", [(b"k", b"v")])]),
+    (b"sv", lambda: [b"x", Variant(b"a{sv}", [])]),
+    (b"g", lambda: [b"a{ss}"]),
+    (b"ag", lambda: [[b"i", b"a{s(ii)}"]]),
+]
+
+
+def _invalid_message(rng):
+    """Bytes the fault-free parser must reject: a valid message whose signature text (header field, a variant's or a
+    'g' value) is damaged somewhere after a container opens, or a randomly corrupted valid message."""
+    for _ in range(40):
+        if rng.random() < 0.7:
+            sig, mk = rng.choice(_DICT_SHAPES)
+            mtype = rng.choice([1, 4])
+            fields = gen.rand_fields(rng, mtype, full=rng.choice([None, False]), extra_unknown=False)
+            data = bytearray(wire.encode_message(mtype, fields, sig, mk(), rng.choice([1, 77]), 0, rng.choice("lB")))
+            spots = [m.start() for m in re.finditer(rb"a\{|\(", bytes(data))]
+            if not spots:
+                continue
+            at = rng.choice(spots)
+            end = bytes(data).find(b"\0", at)
+            if end < 0 or end - at < 3:
+                continue
+            pos = rng.randrange(at + 2, end)
+            data[pos] = rng.choice(b"}{()szzaiv\x00\x7f")
+            data = bytes(data)
+        else:
+            m = gen.rand_message(rng, maxdepth=3, mtype=rng.choice([1, 2, 3, 4]))
+            base, sites = gen.encode(m, want_sites=True)
+            if len(base) > 600:
+                continue
+            data, _cls = gen.corrupt(rng, base, sites)
+        r = wire.validate(data, 0)
+        if r.kind == wire.INVALID and len(data) <= 700:
+            return data
+    return bytes.fromhex("6c01000100000000010000000000000000")
+
+
 def _h_indices(ts, values, out):
     for t, v in zip(ts, values):
         c = t.code
@@ -126,6 +171,8 @@ def gen_case(rng, stats):
             data, n = _small_message(rng), 0
         return "copy %d %d %s" % (warm, n, data.hex())
     if op == "demarshal":
+        if rng.random() < 0.45:
+            return "demarshal %d %s" % (warm, _invalid_message(rng).hex())
         return "demarshal %d %s" % (warm, _small_message(rng, maxdepth=3).hex())
     if op == "edit":
         ops = c12._script(rng, stats)
@@ -189,6 +236,10 @@ def gen_case(rng, stats):
         text = c07.render(rng, c07.many_keys_rule(rng, rng.choice([8, 15, 16, 17])))
     else:
         text = c07.mutate_invalid(rng, c07.render(rng, c07.gen_rule_pairs(rng, _CLIENTS)), _CLIENTS)
+    if r < 0.65 and rng.random() < 0.25:
+        # a value that ends in a bare backslash at the very end of the rule (legal: the backslash is kept)
+        text = text + rng.choice([b"\\", b",arg%d=\\" % rng.randint(0, 63), b",arg%d=C:\\" % rng.randint(0, 63)]) \
+            if not re.search(rb"arg\d+(path)?=|arg0namespace", text) else text + b"\\"
     if b"\0" in text or len(text) > 1500:
         text = b"type='signal'"
     return "matchrule %d x%s" % (warm, text.hex())
@@ -453,7 +504,25 @@ class _Judge(object):
     def demarshal(self, runs):
         ref = runs[0]
         if ref.get("msg") is None:
-            self.part.count("lib:demarshal:reference-rejected(C01 domain)")
+            # bytes the parser rejects: a failing allocation may turn the answer into NoMemory, never into a message
+            self.part.count("lib:demarshal:reference-rejected")
+            if ref["err"] == NOMEM:
+                self.bad("nomem-without-fault", "fault-free demarshal reports NoMemory", ref)
+                return
+            for run in runs:
+                self.common(run)
+                if run["msg"] is not None:
+                    self.bad("invalid-accepted-under-fault", "bytes rejected without fault (%s) are demarshalled into a message when "
+                             "an allocation fails" % str(ref["err"]).rsplit(".", 1)[-1], run, got=json.dumps(self.blob(run["msg"]))[:2000])
+                elif run["err"] == NOMEM:
+                    if not run["fired"]:
+                        self.bad("null-without-fault", "demarshal reports NoMemory although no failure was injected", run)
+                    if run["retry"] is not None:
+                        self.bad("invalid-accepted-on-retry", "bytes rejected without fault are accepted when retried after a failure", run)
+                elif run["err"] != ref["err"]:
+                    self.bad("wrong-error:%s" % str(run["err"]).rsplit(".", 1)[-1],
+                             "demarshal of invalid bytes fails with %r under an injected failure, %r without" % (run["err"], ref["err"]), run)
+                self.outcome(run, run["err"] == NOMEM)
             return
         D = ref["msg"]
         data = bytes.fromhex(self.line.split(" ")[2])
